@@ -266,10 +266,12 @@ class Histogram1D(ObjectWithBinning, HistogramBase):
             if index.step == 1 or index.step is None:
                 underflow = self.underflow
                 overflow = self.overflow
+                # (float16 / float32 contents are summed in double precision, as elsewhere)
+                wide = np.float64 if self.dtype.kind == "f" else None
                 if index.start:
-                    underflow += self.frequencies[0 : index.start].sum()
+                    underflow = underflow + self.frequencies[0 : index.start].sum(dtype=wide)
                 if index.stop:
-                    overflow += self.frequencies[index.stop :].sum()
+                    overflow = overflow + self.frequencies[index.stop :].sum(dtype=wide)
         # Masked arrays or item list or ...
         return self.__class__(
             self._binning.as_static(copy=False)[index],
